@@ -752,7 +752,7 @@ def r05_10(ctx, prog, crate):
     - the division happens before the narrowing cast (narrowing the 128-bit total first silently drops its high bits)."""
     from lib.symexpr import Sym, show
     n = 0
-    for b in prog.lib_bodies(crate):
+    for b in prog.owner_bodies(crate):
         if not b.path.startswith("benchmark::BenchContext::") or b.kind == "Closure":
             continue
         cs = [c for c in b.live_calls() if c.callee.endswith("AnyCounter::known") and b.loops_containing(c.bb)]
